@@ -99,6 +99,31 @@ def check(run, tier):
                 succ.extend(cfgr.success_targets(bi))
             oks = cfgr.ok_return_blocks()
             good = bool(oks) and bool(succ) and all(any(cfgr.dominated_by(b, s) for s in succ) for b in oks)
+            if not oks:
+                # `validator(..).map(|()| Self { .. })`: the return value is written only by a Result combinator applied
+                # to the validator's own result (Ok stays Ok only if the validator returned Ok) or by `?` residuals
+                vdest = {cfgr.blocks[bi]["term"]["dest"]["l"] for bi, _ in vcalls}
+                holders = set()
+                for d_ in vdest:
+                    holders |= cfgr.copies_of(d_)
+                writers = []
+                for bi_, b_ in enumerate(cfgr.blocks):
+                    if b_.get("cleanup"):
+                        continue
+                    for st2 in b_["stmts"]:
+                        if st2["k"] == "assign" and st2["place"]["l"] == 0:
+                            writers.append("stmt")
+                    t2 = b_["term"]
+                    if t2["k"] == "call" and t2["dest"]["l"] == 0:
+                        r2 = (t2["f"]["resolved"] or t2["f"]["declared"]) if t2["f"]["k"] == "item" else None
+                        a0 = (t2["args"][0].get("m") or t2["args"][0].get("c")) if t2["args"] else None
+                        if r2 is not None and r2["def"] in ("core::result::Result::<T, E>::map", "core::result::Result::<T, E>::and_then") and a0 is not None and not a0["p"] and a0["l"] in holders:
+                            writers.append("gated")
+                        elif r2 is not None and r2["def"].endswith("::from_residual"):
+                            writers.append("residual")
+                        else:
+                            writers.append("call")
+                good = bool(writers) and "gated" in writers and all(w in ("gated", "residual") for w in writers)
             run.obligation(good)
             run.sample({"rule": "GATE", "constructor": r, "validator": vcalls[0][1]["name"], "Ok blocks": oks, "validator success edge targets": succ, "dominated": good})
             if good:
